@@ -94,6 +94,13 @@ def generate(rng, prop, tier):
                 ops.append({"op": "fit_model", "from": rng.choice(sms), "data": "ok", "grid": grid, "extra_grid": extra, "minimize": rng.choice(["early_stop:2", "early_stop:1", "early_stop:3", "real"]), "faults": []})
                 pool.append("Fit_Model")
                 fits += 1
+                if rng.random() < 0.4:
+                    # the caller's grid dict (one object, written once in a script) used for a second fit
+                    first = len(ops) - 1
+                    ops.append(dict(json.loads(json.dumps(ops[first])), reuse_grid_of=first, minimize=rng.choice(["early_stop:2", "early_stop:1"]), faults=["grid_object_reused"]))
+                    ops[-1]["from"] = rng.choice(sms)
+                    pool.append("Fit_Model")
+                    fits += 1
         elif r < 0.7:
             if rng.random() < 0.25:
                 ops.append({"op": "search", "from": src, "target": None, "bad_target": rng.randrange(len(BAD_TARGETS)), "faults": ["bad_target"]})
@@ -123,6 +130,7 @@ def execute(schedule) -> Result:
     mats = {k: (np.array([[xf(v) for v in row] for row in m], dtype=float) if m else np.zeros((0, 1))) for k, m in schedule["matrices"].items()}
     sid = {"Start": StateId.Start, "Symbolic_Model": StateId.Symbolic_Model, "Fit_Model": StateId.Fit_Model}
     pool = [(ui.DesignManager(name="fsim"), ["Start"], None)]  # (object, reference path, grid)
+    grid_objs = {}  # op index -> the dict object handed to fit_model there
     seam = MinimizeSeam(getattr(python, "minimize", None) or __import__("scipy.optimize", fromlist=["minimize"]).minimize)
     had_name = hasattr(python, "minimize")
     if had_name:
@@ -183,6 +191,10 @@ def execute(schedule) -> Result:
                     second = {k_: v * eg["process_noise_factor"] for k_, v in b["process_noise"].items()}
                     grid["process_noise"] = [b["process_noise"], second] if i % 2 == 0 else [second, b["process_noise"]]
                 grid.setdefault("common_subexpression_elimination", [False])
+                if op.get("reuse_grid_of") in grid_objs:
+                    grid = grid_objs[op["reuse_grid_of"]]  # the SAME dict object an earlier fit_model was given
+                    res.stats["fault:grid_object_reused"] += 1
+                grid_objs[i] = grid
                 seam.mode = op["minimize"]
                 n_before = len(pool)
                 # observation only: the configuration every candidate estimator carries when the search fits it
